@@ -77,7 +77,7 @@ def coq_makefile():
         open(stamp, "w").write(cur)
 
 
-def coq_make(targets, timeout=3000):
+def coq_make(targets, timeout=1500):
     """Build .vo targets (relative to coq/), full build, under a lock."""
     with Lock(".coq.lock"):
         coq_makefile()
